@@ -202,6 +202,7 @@ func ruleFilterOps(r *Report) {
 		h.Check(ok, "(*column.Txn).WithUnion/op", r.P.Pos(fn.Pos()), "scratch zeroed per block, Or of every column, then selection And scratch", "WithUnion does not compute selection ∧ (c1 ∨ c2 ∨ …) per block with a scratch bitmap that is reset for every block")
 	}
 	ruleValueFilterOp(r)
+	ruleTypedFilterScan(r)
 	// value filters clear on missing / wrong kind
 	for _, name := range []string{"(*column.Txn).WithValue", "(*column.Txn).WithFloat", "(*column.Txn).WithInt", "(*column.Txn).WithUint", "(*column.Txn).WithString"} {
 		fn := r.Anchor(name)
@@ -756,6 +757,82 @@ func ruleAggregatesReadOnly(r *Report) {
 // selectionUnderPresence: the bitmap handed to a fold derives from the column's presence bitmap
 // (e.g. present(index, fill)), or was intersected with it beforehand.
 func selectionUnderPresence(f *ssa.Function, at ssa.Instruction, sel ssa.Value) bool {
+	// the result of a helper that is handed the presence bitmap (present(index, fill)): handing it
+	// over is not enough, the helper has to intersect what it returns with it
+	if call, ok := norm(sel).(*ssa.Call); ok {
+		if sc := call.Call.StaticCallee(); sc != nil && isHelper(sc) {
+			hf := originOf(sc)
+			var fills []ssa.Value
+			for i, a := range call.Call.Args {
+				if isStorageFill(a) && i < len(hf.Params) {
+					fills = append(fills, hf.Params[i])
+				}
+			}
+			if len(fills) > 0 {
+				rets := returnsOf(hf)
+				for _, ret := range rets {
+					if len(ret.Results) == 0 {
+						return false
+					}
+					done := false
+					for _, a := range callsWhere(hf, func(_ ssa.Instruction, cc *ssa.CallCommon) bool {
+						if !methodOn(cc, "github.com/kelindar/bitmap", "Bitmap", "And") || len(cc.Args) < 2 {
+							return false
+						}
+						if !sameExpr(bitmapRecv(cc.Args[0]), ret.Results[0]) && !isLoadOf(ret.Results[0], bitmapRecv(cc.Args[0])) {
+							return false
+						}
+						for _, fp := range fills {
+							if sameExpr(cc.Args[1], fp) {
+								return true
+							}
+						}
+						return false
+					}) {
+						if precedes(a, ret) {
+							done = true
+						}
+					}
+					// … or word by word: res[i] = x & fill[i], every stored word an AND with a word of
+					// the presence bitmap
+					if !done {
+						stores, anded := 0, 0
+						allInstrs(hf, func(ins ssa.Instruction) {
+							st, isSt := ins.(*ssa.Store)
+							if !isSt {
+								return
+							}
+							ia, isIA := st.Addr.(*ssa.IndexAddr)
+							if !isIA || !sameExpr(ia.X, ret.Results[0]) {
+								return
+							}
+							stores++
+							if bo, isB := st.Val.(*ssa.BinOp); isB && bo.Op == token.AND {
+								for _, opd := range []ssa.Value{bo.X, bo.Y} {
+									if dependsOnSlice(elemBase(opd), func(z ssa.Value) bool {
+										for _, fp := range fills {
+											if z == fp {
+												return true
+											}
+										}
+										return false
+									}, 5) {
+										anded++
+										return
+									}
+								}
+							}
+						})
+						done = stores > 0 && stores == anded
+					}
+					if !done {
+						return false
+					}
+				}
+				return len(rets) > 0
+			}
+		}
+	}
 	if dependsOn(sel, func(v ssa.Value) bool { return isStorageFill(v) }, 8) {
 		return true
 	}
@@ -1583,13 +1660,23 @@ func ruleReaderState(r *Report) {
 	if fn := r.Anchor("(*commit.Reader).use"); fn != nil {
 		st := fieldsStoredOn(fn, "commit.Reader")
 		var missing []string
+		// the fields a reset has to cover are the ones Next reads before it writes them (the read
+		// position, the buffer, the running offset); the ones every Next writes first (value bounds,
+		// operation type, string header) carry nothing over, and resetting them is hygiene
+		need := readBeforeWritten(r.Anchor("(*commit.Reader).Next"), "commit.Reader", []string{"buffer", "last", "i0", "i1", "Offset", "headString", "Type"})
+		for _, f := range []string{"buffer", "last", "Offset"} {
+			need[f] = true
+		}
 		for _, f := range []string{"buffer", "last", "i0", "i1", "Offset", "headString", "Type"} {
-			if len(st[f]) == 0 {
+			if need[f] && len(st[f]) == 0 {
 				missing = append(missing, f)
 			}
 		}
 		zero := true
 		for _, f := range []string{"last", "i0", "i1", "Offset"} {
+			if !need[f] {
+				continue
+			}
 			for _, v := range st[f] {
 				if c, isC := constInt(v); !isC || c != 0 {
 					zero = false
@@ -1649,6 +1736,49 @@ func ruleStateVersion(r *Report) {
 		}
 	})
 	h.Check(wv == rv, "version", r.P.Pos(ws.Pos()), fmt.Sprintf("writer and reader agree on version %d", wv), fmt.Sprintf("the state writer emits version %d, the reader accepts %d: no snapshot can be restored", wv, rv))
+	// … and another version is refused whether or not the read itself failed: with the version test
+	// answering "differs" and the read error answering "none", nothing further is read
+	var vcmp *ssa.BinOp
+	var vcall *ssa.Call
+	allInstrs(rs, func(ins ssa.Instruction) {
+		if bo, ok := ins.(*ssa.BinOp); ok && (bo.Op == token.NEQ || bo.Op == token.EQL) {
+			for _, pair := range [][2]ssa.Value{{bo.X, bo.Y}, {bo.Y, bo.X}} {
+				if _, isC := constInt(pair[1]); isC {
+					if cl, isEx := extractOf(norm(pair[0]), 0); isEx && calleeIs(&cl.Call, "(*iostream.Reader).ReadUvarint") {
+						vcmp, vcall = bo, cl
+					}
+				}
+			}
+		}
+	})
+	if vcmp != nil {
+		reach, _ := feasibleUnder(rs, func(v ssa.Value) (bool, bool) {
+			bo, ok := v.(*ssa.BinOp)
+			if !ok {
+				return false, false
+			}
+			if bo == vcmp {
+				return bo.Op == token.NEQ, true
+			}
+			if bo.Op == token.NEQ || bo.Op == token.EQL {
+				for _, pair := range [][2]ssa.Value{{bo.X, bo.Y}, {bo.Y, bo.X}} {
+					if cl, isEx := extractOf(norm(pair[0]), 1); isEx && cl == vcall && isConstNil(pair[1]) {
+						return bo.Op == token.EQL, true // no read error
+					}
+				}
+			}
+			return false, false
+		})
+		further := false
+		allInstrs(rs, func(ins ssa.Instruction) {
+			if c, ok := ins.(*ssa.Call); ok && c != vcall && reach[c.Block()] {
+				if sc := c.Call.StaticCallee(); sc != nil && strings.HasPrefix(sc.Name(), "Read") {
+					further = true
+				}
+			}
+		})
+		h.Check(!further, "version/refused", r.P.InstrPos(vcmp), "a state of another version is refused before anything else is read", "a state stream whose version differs is read on when the read itself did not fail (the version test is and-ed with the error test): a stream of another layout is decoded as if it were this one")
+	}
 }
 
 func ruleTTLNames(r *Report) {
@@ -1711,4 +1841,107 @@ func isWordStore(t types.Type) bool {
 	}
 	b, ok := el.(*types.Basic)
 	return ok && b.Kind() == types.Uint64
+}
+
+// readBeforeWritten: the fields of the struct that fn (helpers included) can load before having
+// stored them in the same call: a load in fn that no store of fn dominates, or a load in a helper
+// that no store of the helper dominates and no store of fn precedes the helper's call.
+func readBeforeWritten(fn *ssa.Function, typ string, fields []string) map[string]bool {
+	out := map[string]bool{}
+	if fn == nil {
+		for _, f := range fields {
+			out[f] = true
+		}
+		return out
+	}
+	type acc struct{ loads, stores []ssa.Instruction }
+	collect := func(g *ssa.Function) map[string]*acc {
+		m := map[string]*acc{}
+		allInstrs(g, func(ins ssa.Instruction) {
+			fa, ok := ins.(*ssa.FieldAddr)
+			if !ok {
+				return
+			}
+			fr, ok := fieldOf(fa)
+			if !ok || fr.Struct != typ {
+				return
+			}
+			a := m[fr.Field]
+			if a == nil {
+				a = &acc{}
+				m[fr.Field] = a
+			}
+			for _, ref := range *fa.Referrers() {
+				switch x := ref.(type) {
+				case *ssa.Store:
+					if x.Addr == ssa.Value(fa) {
+						a.stores = append(a.stores, x)
+						continue
+					}
+					a.loads = append(a.loads, x)
+				default:
+					a.loads = append(a.loads, ref)
+				}
+			}
+		})
+		return m
+	}
+	top := collect(fn)
+	exposed := func(a *acc) bool {
+		for _, l := range a.loads {
+			dom := false
+			for _, st := range a.stores {
+				if precedes(st, l) {
+					dom = true
+				}
+			}
+			if !dom {
+				return true
+			}
+		}
+		return false
+	}
+	for f, a := range top {
+		if exposed(a) {
+			out[f] = true
+		}
+	}
+	allInstrs(fn, func(ins ssa.Instruction) {
+		cc, _, _ := callCommon(ins)
+		if cc == nil || cc.StaticCallee() == nil || !isHelper(cc.StaticCallee()) {
+			return
+		}
+		for _, g := range deepFuncs(originOf(cc.StaticCallee())) {
+			for f, a := range collect(g) {
+				if !exposed(a) {
+					continue
+				}
+				covered := false
+				if t := top[f]; t != nil {
+					for _, st := range t.stores {
+						if precedes(st, ins) {
+							covered = true
+						}
+					}
+				}
+				if !covered {
+					out[f] = true
+				}
+			}
+		}
+	})
+	return out
+}
+
+// elemBase: for a loaded element x[i], the slice x (nil otherwise).
+func elemBase(v ssa.Value) ssa.Value {
+	ld, ok := strip(v).(*ssa.UnOp)
+	if !ok || ld.Op != token.MUL {
+		return nil
+	}
+	ia, ok := ld.X.(*ssa.IndexAddr)
+	if !ok {
+		return nil
+	}
+	return ia.X
 }
